@@ -257,6 +257,35 @@ def checks (t : Tables) (o : Opts) (symlink : Bool) (input : Bytes) : List (Bool
 def component (t : Tables) (o : Opts) (symlink : Bool) (input : Bytes) : Option Err :=
   ((checks t o symlink input).find? (·.1)).map (·.2)
 
+/-! ### the callers that choose the `mode` argument -/
+
+/-- `tree::EntryMode::kind() == EntryKind::Link` / `EntryKind::Tree` (gix-object/src/tree/mod.rs:
+`mode & 0o170000`) -/
+def modeIsLink (m : Nat) : Bool := m &&& 0o170000 == 0o120000
+def modeIsTree (m : Nat) : Bool := m &&& 0o170000 == 0o040000
+
+/-- `gix_index::State::from_tree` (gix-index/src/init.rs, `CollectEntries`) on a tree whose only
+hostile entry is `(mode, name)` (at the root or below a harmless directory; a tree entry points to a
+tree with one harmless blob): every name is validated with `mode = None` when it is pushed
+(`push_element`), a non-tree leaf once more with `Some(Symlink)` iff its mode's KIND is a link
+(`add_entry`). `none` = the index is built. -/
+def fromTreeEntry (t : Tables) (o : Opts) (mode : Nat) (name : Bytes) : Option Err :=
+  match component t o false name with
+  | some e => some e
+  | none => if !modeIsTree mode && modeIsLink mode then component t o true name else none
+
+/-- `gix_worktree::Stack::at_entry(name, Some(mode), …)` with `State::for_checkout` for a single
+normal path component: `StackDelegate::push` → `validate_last_component(stack, mode, opts)`, where
+symlink = (`mode == gix_index::entry::Mode::SYMLINK`). -/
+def stackPush (t : Tables) (o : Opts) (symlink : Bool) (name : Bytes) : Option Err :=
+  component t o symlink name
+
+def parseOct? (s : String) : Option Nat :=
+  if s.isEmpty then none
+  else s.toList.foldl (fun acc c => match acc with
+    | none => none
+    | some n => if '0' ≤ c ∧ c ≤ '7' then some (n * 8 + (c.toNat - 48)) else none) (some 0)
+
 /-! ### driver -/
 
 def parseBool? : String → Option Bool
@@ -276,6 +305,31 @@ def handle? : List String → Option String
     match component extractedTables ⟨w, h, n⟩ s bs with
     | none => some "ok"
     | some e => some ("err:" ++ e.name)
+  | ["fromtree", w, h, n, _depth, mode, hx] => do
+    let w ← parseBool? w
+    let h ← parseBool? h
+    let n ← parseBool? n
+    let mode ← parseOct? mode
+    let bs ← bytesOfHex hx
+    match fromTreeEntry extractedTables ⟨w, h, n⟩ mode bs with
+    | none => some "ok"
+    | some e => some ("err:" ++ e.name)
+  | ["stack", w, h, n, s, hx] => do
+    let w ← parseBool? w
+    let h ← parseBool? h
+    let n ← parseBool? n
+    let s ← parseBool? s
+    let bs ← bytesOfHex hx
+    match stackPush extractedTables ⟨w, h, n⟩ s bs with
+    | none => some "ok"
+    | some e => some ("err:" ++ e.name)
+  | ["gittree", n, h, mode, hx] => do
+    -- git read-tree of a literal tree with one entry: the mode is a symlink iff S_ISLNK(mode)
+    let n ← parseBool? n
+    let h ← parseBool? h
+    let mode ← parseOct? mode
+    let bs ← bytesOfHex hx
+    if bs.contains 0 then none else some (yn (Spec.C40.gitVerifyPath n h (modeIsLink mode) bs))
   | ["device", hx] => do
     let bs ← bytesOfHex hx
     some (if isWinDevice extractedTables bs then "device" else "no")
